@@ -4,6 +4,7 @@ import (
 	"fmt"
 	"testing"
 	"testing/synctest"
+	"time"
 
 	"github.com/pion/turn/v5/verif/rep"
 	"github.com/pion/turn/v5/verif/wire"
@@ -174,4 +175,69 @@ func firstLine(s string) string {
 	}
 
 	return s
+}
+
+// TestC09ClientLifetimes (a part of C09): the LIFETIME of the Allocate success
+// response is a value the server chooses; the client derives its refresh
+// cadence from it. For every boundary value {0, 1, 2, 3, 600, 2^32-1} and both
+// kinds of allocation the client reaches quiescence (no spin at one instant),
+// sends at most 25 requests in the following 10 s of virtual time, and its
+// read loop still answers.
+func TestC09ClientLifetimes(t *testing.T) {
+	r := rep.New("C09")
+	defer r.Write()
+	if i, _ := rep.Shard(); i != 0 {
+		return
+	}
+	for _, tcp := range []bool{false, true} {
+		for _, lt := range []uint32{0, 1, 2, 3, 600, 0xFFFFFFFF} {
+			c := map[string]any{"engine": "c09-client-lifetimes", "tcp": tcp, "lifetime": lt}
+			rep.Current(c)
+			stop := r.Guard(30*time.Second, fmt.Sprintf("client-spins-after-allocate-success-with-lifetime=%d:tcp=%v", lt, tcp), func() any { return c })
+			var fatal string
+			func() {
+				defer func() {
+					if e := recover(); e != nil {
+						fatal = fmt.Sprint(e)
+					}
+				}()
+				synctest.Test(t, func(*testing.T) {
+					x, err := newWorldLT(tcp, lt)
+					if err != nil {
+						r.Violate(rep.Violation{Oracle: "harness", Signature: "harness:setup", Detail: err.Error(), Replay: c})
+						if x != nil {
+							x.teardown()
+						}
+
+						return
+					}
+					defer x.teardown()
+					x.light = true
+					x.mu.Lock()
+					n0 := len(x.log)
+					x.mu.Unlock()
+					time.Sleep(10 * time.Second)
+					synctest.Wait()
+					x.mu.Lock()
+					n := len(x.log) - n0
+					x.mu.Unlock()
+					r.Evaluations++
+					if n > 25 {
+						r.Violate(rep.Violation{Oracle: "c09-client-lifetimes", Signature: fmt.Sprintf("client-floods-after-allocate-success-with-lifetime=%d:tcp=%v", lt, tcp),
+							Detail: fmt.Sprintf("%d datagrams sent to the server within 10 s of virtual time", n), Replay: c})
+					}
+					x.v = nil
+					x.inbound("probe-after-lifetime", x.probe())
+					if x.v != nil {
+						r.Violate(rep.Violation{Oracle: "c09-client-lifetimes", Signature: fmt.Sprintf("client-lifetime=%d:tcp=%v:%s", lt, tcp, x.v.sig), Detail: x.v.detail, Replay: c})
+					}
+					r.Class(fmt.Sprintf("allocate success with LIFETIME=%d tcp=%v -> %d requests in the next 10 s", lt, tcp, n))
+				})
+			}()
+			stop()
+			if fatal != "" {
+				r.Violate(rep.Violation{Oracle: "fatal", Signature: fmt.Sprintf("client-lifetime=%d:tcp=%v:crash:%s", lt, tcp, firstLine(fatal)), Detail: fatal, Replay: c})
+			}
+		}
+	}
 }
